@@ -36,6 +36,7 @@ THEOREMS = [
     "Opacus.C11.poisson_second_backward_raises",
     "Opacus.C11.module_zero_grad_then_step_raises",
     "Opacus.C11.ghost_double_release_counterexample",
+    "Opacus.C11.ghost_no_double_release_partial",
 ]
 RULE = (
     "case = (optimizer kind std|ghost, accumulation allowed?, accountant rdp|gdp, op sequence over {fwdbwd n, step, optimizer.zero_grad, "
@@ -47,7 +48,7 @@ TRUSTED = [
     "one optimised parameter tensor (flags are set and checked per parameter in the same loop; hooks give every parameter its grad_sample in the same backward)",
 ]
 PARTIAL = [
-    "ghost clipping optimizer: the guarantee fails as coded (D10); only the counterexample is proved, the correspondence still covers every ghost sequence",
+    "ghost clipping optimizer: the guarantee fails as coded (D10, counterexample proved); it is proved under the usage discipline `a backward or a clearing between two step() calls` (ghost_no_double_release_partial); the correspondence covers every ghost sequence",
 ]
 
 CFGS = [
